@@ -437,6 +437,30 @@ func c13Run(t *testing.T, o *vOut, ca *vCA, sc c13Script) {
 				o.Mon("C13 empty-certificate-nil-error", map[string]any{"script": sc.String(), "end": c.end.String()})
 			}
 		}
+		// at most one handshake per wave performs the work: the issuer is called from at most one
+		// goroutine per wave (a worker may call it several times: retries), whatever its outcome
+		issuingThreads := 0
+		for _, evs := range threads {
+			for _, e := range evs {
+				if strings.HasPrefix(e.Tok, "issue:") {
+					issuingThreads++
+					break
+				}
+			}
+		}
+		if issuingThreads > 2 {
+			o.Mon("C13 more-than-one-handshake-per-wave-asks-the-issuer", map[string]any{"script": sc.String(), "goroutines_calling_issuer": issuingThreads})
+		}
+		// once a background renewal of an unexpired certificate has completed, later handshakes get
+		// the new certificate
+		if sc.kind == "renewWindow" && sc.outcome == "ok" && firstSuccess == 99 {
+			for _, c := range calls {
+				if c.done && c.phase == 3 && c.res == "cur" {
+					o.Mon("C13 old-certificate-served-after-renewal-completed", map[string]any{"script": sc.String(), "end": c.end.String()})
+					break
+				}
+			}
+		}
 		ctl.mu.Lock()
 		if ctl.twoWorkers > 0 || ctl.maxInIssuer > 1 {
 			o.Mon("C13 two-workers", map[string]any{"script": sc.String(), "atYieldPoint": ctl.twoWorkers, "inIssuer": ctl.maxInIssuer})
